@@ -100,6 +100,48 @@ class _SearchLoopUnroller(ast.NodeTransformer):
         return chain[0]
 
 
+def _get_then_raise(body: list[ast.stmt]) -> tuple[list[ast.stmt], int]:
+    """`x = D.get(K[, S])` directly followed by `if x is None|S: raise KeyError(K)`  ==  `x = D[K]`
+    (the explicit spelling of what a subscript does; sound as long as no value of D is the sentinel)"""
+    out: list[ast.stmt] = []
+    n = 0
+    i = 0
+    while i < len(body):
+        st = body[i]
+        for field in ("body", "orelse", "finalbody"):
+            seq = getattr(st, field, None)
+            if isinstance(seq, list) and seq and isinstance(seq[0], ast.stmt):
+                new, k = _get_then_raise(seq)
+                setattr(st, field, new)
+                n += k
+        if isinstance(st, ast.Try):
+            for h in st.handlers:
+                h.body, k = _get_then_raise(h.body)
+                n += k
+        tgt = val = None
+        if isinstance(st, ast.Assign) and len(st.targets) == 1 and isinstance(st.targets[0], ast.Name):
+            tgt, val = st.targets[0], st.value
+        elif isinstance(st, ast.AnnAssign) and isinstance(st.target, ast.Name) and st.value is not None:
+            tgt, val = st.target, st.value
+        nxt = body[i + 1] if i + 1 < len(body) else None
+        if (tgt is not None and isinstance(val, ast.Call) and isinstance(val.func, ast.Attribute) and val.func.attr == "get" and 1 <= len(val.args) <= 2
+                and not val.keywords and isinstance(nxt, ast.If) and not nxt.orelse and len(nxt.body) == 1 and isinstance(nxt.body[0], ast.Raise)):
+            sentinel = unparse(val.args[1]) if len(val.args) == 2 else "None"
+            test = unparse(nxt.test)
+            exc = nxt.body[0].exc
+            key = unparse(val.args[0])
+            if (test == f"{tgt.id} is {sentinel}" and isinstance(exc, ast.Call) and dotted(exc.func) == "KeyError" and len(exc.args) == 1
+                    and unparse(exc.args[0]) == key and nxt.body[0].cause is None and (sentinel == "None" or sentinel.isidentifier())):
+                sub = ast.Subscript(val.func.value, val.args[0], ast.Load())
+                out.append(ast.copy_location(ast.Assign([ast.Name(tgt.id, ast.Store())], sub), st))
+                n += 1
+                i += 2
+                continue
+        out.append(st)
+        i += 1
+    return out, n
+
+
 # --------------------------------------------------------------------------- helper inlining
 class _Rename(ast.NodeTransformer):
     def __init__(self, mapping: dict[str, ast.AST]) -> None:
@@ -352,8 +394,26 @@ class _Inliner:
         if hbody and isinstance(hbody[0], ast.Expr) and isinstance(hbody[0].value, ast.Constant) and isinstance(hbody[0].value.value, str):
             hbody = hbody[1:]
         assigned = _assigned_names(hbody)
+        # a single-expression helper that reads a parameter exactly once may take the argument expression itself (one such
+        # argument at most, so the order of evaluation is kept)
+        direct: set[str] = set()
+        if len(hbody) == 1 and isinstance(hbody[0], ast.Return) and hbody[0].value is not None:
+            nonsimple = [n for n, a in bound.items() if not _simple(a)]
+            if len(nonsimple) == 1:
+                uses = sum(1 for x in ast.walk(hbody[0].value) if isinstance(x, ast.Name) and x.id == nonsimple[0])
+                if uses == 1:
+                    direct.add(nonsimple[0])
+        # `T = helper(.., T, ..)` where the helper may rebind that parameter and every return hands it back: the parameter IS T
+        threaded: set[str] = set()
+        if isinstance(st, ast.Assign) and st.value is call and len(st.targets) == 1 and isinstance(st.targets[0], ast.Name):
+            rets = [r for s_ in hbody for r in ast.walk(s_) if isinstance(r, ast.Return)]
+            for n, a in bound.items():
+                if isinstance(a, ast.Name) and a.id == st.targets[0].id and rets and all(isinstance(r.value, ast.Name) and r.value.id == n for r in rets):
+                    threaded.add(n)
         for n, a in bound.items():
-            if _simple(a) and n not in assigned:
+            if n in threaded:
+                mapping[n] = a
+            elif (_simple(a) or n in direct) and n not in assigned:
                 mapping[n] = a
             else:
                 tmp = ast.Name(f"{n}{tag}", ast.Load())
@@ -451,9 +511,205 @@ def _rename_everywhere(repo: Repo, mi: ModuleInfo, fn: FunctionInfo, old: str) -
             om.imports[old] = (mi.name, old)
 
 
+_PRIM = {"int", "str", "bytes", "bool", "float", "None"}
+_PURE_BUILTINS = {"int", "str", "bytes", "bool", "float", "len", "hex", "bin", "oct", "min", "max", "abs", "tuple", "range", "sum", "divmod", "ord", "chr",
+                  "sorted", "reversed", "enumerate", "zip", "isinstance", "type", "repr", "round", "any", "all", "frozenset", "pow"}
+
+
+def _prim_ann(a: ast.AST | None) -> bool:
+    if a is None:
+        return False
+    if isinstance(a, ast.Constant):
+        return a.value is None or (isinstance(a.value, str) and a.value in _PRIM)
+    if isinstance(a, ast.Name):
+        return a.id in _PRIM
+    if isinstance(a, ast.BinOp) and isinstance(a.op, ast.BitOr):
+        return _prim_ann(a.left) and _prim_ann(a.right)
+    if isinstance(a, ast.Subscript) and (dotted(a.value) or "").split(".")[-1] in ("tuple", "Tuple", "Optional", "Union"):
+        elts = a.slice.elts if isinstance(a.slice, ast.Tuple) else [a.slice]
+        return all(_prim_ann(e) or (isinstance(e, ast.Constant) and e.value is Ellipsis) for e in elts)
+    return False
+
+
+def _pure_of_primitives(fn: FunctionInfo) -> bool:
+    """every parameter is an immutable primitive and the body reads nothing but its parameters, its locals, pure builtins, `struct`
+    and module-level literal constants: memoising such a function cannot change what it returns"""
+    args = fn.node.args
+    params = args.posonlyargs + args.args + args.kwonlyargs
+    if args.vararg or args.kwarg or not params or not all(_prim_ann(a.annotation) for a in params):
+        return False
+    local = {a.arg for a in params} | _assigned_names(fn.node.body)
+    skip: set[int] = set()
+    for st in fn.node.body:
+        for x in ast.walk(st):
+            if isinstance(x, ast.AnnAssign):
+                skip |= {id(y) for y in ast.walk(x.annotation)}
+    for n in [x for st in fn.node.body for x in ast.walk(st) if id(x) not in skip]:
+        if isinstance(n, (ast.Global, ast.Nonlocal, ast.Yield, ast.YieldFrom, ast.Await, ast.Lambda, ast.FunctionDef, ast.ClassDef)):
+            return False
+        if isinstance(n, ast.Name) and isinstance(n.ctx, ast.Load) and n.id not in local and n.id not in _PURE_BUILTINS and n.id != "struct":
+            st = fn.module.assigns.get(n.id)
+            if not (st is not None and _const_value(st) is not None):
+                return False
+        if isinstance(n, ast.Attribute) and isinstance(n.value, ast.Name) and n.value.id not in local and n.value.id != "struct":
+            return False
+    return True
+
+
 def _plain(fn: FunctionInfo) -> bool:
-    """A helper wrapped by a decorator (memoisation, context manager, ...) is not equivalent to its inlined body."""
-    return all((dotted(d) or "") in ("staticmethod", "classmethod") for d in fn.node.decorator_list)
+    """A helper wrapped by a decorator (memoisation, context manager, ...) is not equivalent to its inlined body - except a
+    memoised pure function of immutable primitives, whose decorator is transparent."""
+    for d in fn.node.decorator_list:
+        name = (dotted(d if not isinstance(d, ast.Call) else d.func) or "")
+        if name in ("staticmethod", "classmethod"):
+            continue
+        if name.split(".")[-1] in ("lru_cache", "cache") and _pure_of_primitives(fn):
+            continue
+        return False
+    return True
+
+
+
+# --------------------------------------------------------------------------- value objects of new classes
+def _value_class_fields(ci: ClassInfo) -> list[tuple[str, ast.AST | None]] | None:
+    """(field, default) in constructor order for a new @dataclass / NamedTuple; None when the class is anything else"""
+    is_dc = any((dotted(d if not isinstance(d, ast.Call) else d.func) or "").split(".")[-1] == "dataclass" for d in ci.node.decorator_list)
+    is_nt = any(b.split(".")[-1] == "NamedTuple" for b in ci.base_names)
+    if not (is_dc or is_nt) or "__init__" in ci.methods or "__post_init__" in ci.methods or "__new__" in ci.methods:
+        return None
+    if is_dc and len(ci.base_names) > 0:
+        return None
+    out: list[tuple[str, ast.AST | None]] = []
+    for st in ci.node.body:
+        if isinstance(st, ast.AnnAssign) and isinstance(st.target, ast.Name):
+            if "ClassVar" in unparse(st.annotation):
+                continue
+            d = st.value
+            if isinstance(d, ast.Call) and (dotted(d.func) or "").split(".")[-1] == "field":
+                fac = next((k.value for k in d.keywords if k.arg == "default_factory"), None)
+                dv = next((k.value for k in d.keywords if k.arg == "default"), None)
+                d = ast.Call(fac, [], []) if fac is not None else dv
+            out.append((st.target.id, d))
+        elif isinstance(st, (ast.FunctionDef, ast.Pass)) or (isinstance(st, ast.Expr) and isinstance(st.value, ast.Constant)):
+            continue
+        else:
+            return None
+    return out or None
+
+
+class _FieldRewriter(ast.NodeTransformer):
+    def __init__(self, var: str, fields: set[str]) -> None:
+        self.var, self.fields = var, fields
+
+    def visit_Attribute(self, node: ast.Attribute) -> ast.AST:
+        if isinstance(node.value, ast.Name) and node.value.id == self.var and node.attr in self.fields:
+            return ast.copy_location(ast.Name(f"{self.var}__{node.attr}", node.ctx), node)
+        self.generic_visit(node)
+        return node
+
+
+def _scalarize(fn: FunctionInfo, value_classes: dict[str, tuple[ClassInfo, list[tuple[str, ast.AST | None]]]], report: dict[str, object]) -> bool:
+    """A local that only ever holds `K(...)` of a new value class K and is only used as `v.field` / `v.method(...)` is replaced by
+    one local per field; K's methods are inlined at their call sites first."""
+    changed = False
+    for _round in range(4):
+        stores: dict[str, list[ast.stmt]] = {}
+        bad: set[str] = set()
+        params = {a.arg for a in fn.node.args.posonlyargs + fn.node.args.args + fn.node.args.kwonlyargs}
+        for n in walk_no_nested(fn.node):
+            tgt = val = None
+            if isinstance(n, ast.Assign) and len(n.targets) == 1 and isinstance(n.targets[0], ast.Name):
+                tgt, val = n.targets[0].id, n.value
+            elif isinstance(n, ast.AnnAssign) and isinstance(n.target, ast.Name) and n.value is not None:
+                tgt, val = n.target.id, n.value
+            if tgt is not None:
+                if isinstance(val, ast.Call) and isinstance(val.func, ast.Name) and val.func.id in value_classes and not any(isinstance(a, ast.Starred) for a in val.args):
+                    stores.setdefault(tgt, []).append(n)
+                else:
+                    bad.add(tgt)
+            elif isinstance(n, (ast.For, ast.comprehension)) or isinstance(n, (ast.With,)):
+                for x in ast.walk(n.target if not isinstance(n, ast.With) else ast.Tuple([i.optional_vars for i in n.items if i.optional_vars is not None], ast.Store())):
+                    if isinstance(x, ast.Name):
+                        bad.add(x.id)
+        cands = {v: sts for v, sts in stores.items() if v not in bad and v not in params}
+        if not cands:
+            break
+        progressed = False
+        for v, sts in cands.items():
+            kinds = {st.value.func.id for st in sts}  # type: ignore[union-attr]
+            if len(kinds) != 1:
+                continue
+            ci, fields = value_classes[kinds.pop()]
+            fnames = {f for f, _ in fields}
+            # every read of v is v.<something>
+            parents = {id(ch): p for p in ast.walk(fn.node) for ch in ast.iter_child_nodes(p)}
+            loads = [x for x in ast.walk(fn.node) if isinstance(x, ast.Name) and x.id == v and isinstance(x.ctx, ast.Load)]
+            if any(not (isinstance(parents.get(id(x)), ast.Attribute) and parents[id(x)].value is x) for x in loads):
+                continue
+            # inline K's methods called on v
+            spell = {f"{v}.{m}": mi_ for m, mi_ in ci.methods.items() if not m.startswith("__") and not mi_.is_property() and not mi_.is_static()}
+            if spell:
+                inl = _Inliner(spell, None)
+                fn.node.body = inl.body(fn.node.body)
+                ast.fix_missing_locations(fn.node)
+                if inl.gave_up:
+                    continue
+            attrs = {x.attr for x in ast.walk(fn.node) if isinstance(x, ast.Attribute) and isinstance(x.value, ast.Name) and x.value.id == v}
+            loads = [x for x in ast.walk(fn.node) if isinstance(x, ast.Name) and x.id == v and isinstance(x.ctx, ast.Load)]
+            parents = {id(ch): p for p in ast.walk(fn.node) for ch in ast.iter_child_nodes(p)}
+            if not attrs <= fnames or any(not isinstance(parents.get(id(x)), ast.Attribute) for x in loads):
+                continue
+            # constructor calls -> one assignment per field
+            ok = True
+            new_for: dict[int, list[ast.stmt]] = {}
+            for st in [x for x in walk_no_nested(fn.node) if isinstance(x, (ast.Assign, ast.AnnAssign))]:
+                tg = st.targets[0] if isinstance(st, ast.Assign) else st.target
+                if not (isinstance(tg, ast.Name) and tg.id == v):
+                    continue
+                call = st.value
+                bound: dict[str, ast.AST] = {}
+                for (f, _d), a in zip(fields, call.args):  # type: ignore[union-attr]
+                    bound[f] = a
+                for k in call.keywords:  # type: ignore[union-attr]
+                    if k.arg is None:
+                        ok = False
+                    else:
+                        bound[k.arg] = k.value
+                seq: list[ast.stmt] = []
+                for f, d in fields:
+                    val = bound.get(f, d)
+                    if val is None:
+                        ok = False
+                        break
+                    seq.append(ast.copy_location(ast.Assign([ast.Name(f"{v}__{f}", ast.Store())], copy.deepcopy(val)), st))
+                new_for[id(st)] = seq
+            if not ok:
+                continue
+
+            def repl(body: list[ast.stmt]) -> list[ast.stmt]:
+                out: list[ast.stmt] = []
+                for st in body:
+                    if id(st) in new_for:
+                        out += new_for[id(st)]
+                        continue
+                    for fld in ("body", "orelse", "finalbody"):
+                        seq = getattr(st, fld, None)
+                        if isinstance(seq, list) and seq and isinstance(seq[0], ast.stmt):
+                            setattr(st, fld, repl(seq))
+                    if isinstance(st, ast.Try):
+                        for h in st.handlers:
+                            h.body = repl(h.body)
+                    out.append(st)
+                return out
+
+            fn.node.body = repl(fn.node.body)
+            fn.node = _FieldRewriter(v, fnames).visit(fn.node)
+            ast.fix_missing_locations(fn.node)
+            report.setdefault("scalarized_objects", []).append(f"{fn.where}: {v} ({ci.name})")  # type: ignore[union-attr]
+            progressed = changed = True
+        if not progressed:
+            break
+    return changed
 
 
 # --------------------------------------------------------------------------- driver
@@ -515,6 +771,10 @@ def normalize_repo(repo: Repo) -> dict[str, object]:
                 fn.node = cp.visit(fn.node)
                 if cp.hits:
                     report["propagated_constants"].append(f"{fn.where}: {cp.hits}")  # type: ignore[union-attr]
+            fn.node.body, n_gr = _get_then_raise(fn.node.body)
+            if n_gr:
+                ast.fix_missing_locations(fn.node)
+                report.setdefault("get_then_raise", []).append(f"{fn.where}: {n_gr}")  # type: ignore[union-attr]
             un = _SearchLoopUnroller()
             fn.node = un.visit(fn.node)
             if un.done:
@@ -529,6 +789,19 @@ def normalize_repo(repo: Repo) -> dict[str, object]:
                     report["inlined_helpers"].append(f"{h} -> {fn.qualname}")  # type: ignore[union-attr]
                 for g in inl.gave_up:
                     report["gave_up"].append(f"{fn.where}: {g}")  # type: ignore[union-attr]
+        # ---- locals holding objects of new value classes (dataclass / NamedTuple)
+        known_classes = set(known.get("classes", []))
+        value_classes = {}
+        for cname, ci in mi.classes.items():
+            if cname not in known_classes:
+                fl = _value_class_fields(ci)
+                if fl is not None:
+                    value_classes[cname] = (ci, fl)
+        if value_classes:
+            for fn in all_fns:
+                if fn.cls is not None and fn.cls.name in value_classes:
+                    continue
+                _scalarize(fn, value_classes, report)
         # class-level constant propagation is not attempted
         # ---- drop helpers that are no longer referenced
         src_names: dict[str, int] = {}
@@ -557,4 +830,12 @@ def normalize_repo(repo: Repo) -> dict[str, object]:
                     del ci.methods[mname]
                 else:
                     report["kept_helpers"].append(f"{mi.relpath}:{ci.name}.{mname}")  # type: ignore[union-attr]
+        if value_classes:
+            # a value class nothing refers to any more is dropped with its methods
+            remaining = list(mi.functions.values()) + [m for c in mi.classes.values() for m in c.methods.values()]
+            for cname in list(value_classes):
+                used = any(isinstance(n, ast.Name) and n.id == cname for fn in remaining if not (fn.cls is not None and fn.cls.name == cname) for n in ast.walk(fn.node))
+                used = used or any(cname in om.imports and om.imports[cname][0] == mi.name for om in repo.modules.values())
+                if not used and cname in mi.classes:
+                    del mi.classes[cname]
     return report
